@@ -69,6 +69,7 @@ func newHTTPLRUCache(size int) *httpLRUCache {
 		cache: lru.New(size),
 		mu:    &sync.Mutex{},
 	}
+	verifLRU(c)
 	return c
 }
 
@@ -118,6 +119,7 @@ func NewDispatcher(option DispatcherOption) *dispatcher {
 		list:       list,
 		hitForPass: option.HitForPass,
 	}
+	verifPoint("disp.new", disp, option.Name, zoneSize, lruSize)
 	// 如果有配置store
 	if option.Store != "" {
 		store, err := store.NewStore(option.Store)
@@ -145,10 +147,12 @@ func (d *dispatcher) getLRU(key []byte) *httpLRUCache {
 func (d *dispatcher) GetHTTPCache(key []byte) *httpCache {
 	// 锁只在public的方法在使用，public方法之间不互相调用
 	lru := d.getLRU(key)
+	verifPoint("lookup.lock", d, lru)
 	lru.mu.Lock()
 	defer lru.mu.Unlock()
 	hc, ok := lru.getCache(key)
 	if ok {
+		verifPoint("lookup.found", hc, d, lru, key)
 		return hc
 	}
 	if d.store != nil {
@@ -157,17 +161,23 @@ func (d *dispatcher) GetHTTPCache(key []byte) *httpCache {
 		hc = NewHTTPCache()
 	}
 	lru.addCache(key, hc)
+	verifPoint("lookup.new", hc, d, lru, key)
 	return hc
 }
 
 // RemoveHTTPCache remove http cache
 func (d *dispatcher) RemoveHTTPCache(key []byte) {
 	lru := d.getLRU(key)
+	verifPoint("purge.lock", d, lru, key)
 	lru.mu.Lock()
 	defer lru.mu.Unlock()
+	defer verifPoint("purge.done", d, lru, key)
 	lru.removeCache(key)
+	verifPoint("purge.removed", d, lru, key)
 	if d.store != nil {
+		verifPoint("purge.delete", d, lru, key)
 		err := d.store.Delete(key)
+		verifPoint("purge.deleted", d, lru, key, err)
 		if err != nil {
 			log.Default().Error("delete from store fail",
 				zap.String("key", string(key)),
